@@ -54,7 +54,11 @@ class DiagX(SDEFunction):
         super().__init__(m=dimension, d=dimension)
 
     def __call__(self, t: float, x: np.array) -> np.array:
-        return np.diag(x)
+        x = np.asarray(x)
+        if x.ndim == 3:
+            # stacked states (fine and coarse processes of the coupling): one diagonal matrix for each of them
+            return np.array([np.diag(np.ravel(xi)) for xi in x])
+        return np.diag(np.ravel(x))
 
 
 class LiborSDEFunction(SDEFunction):
